@@ -350,3 +350,71 @@ func FindCall(calls []Call, op string) *Call {
 	}
 	return nil
 }
+
+// ---- HTTP-level shapes -------------------------------------------------------------------------------------------------------
+// Shape turns req into another request that net/http could equally well hand to the handler for the same client message: these
+// are properties of the connection / framing, not of the SAML message.
+
+var HTTPShapes = []string{"", "chunked", "short-reads", "http10", "http2", "absolute-uri", "proxy-headers", "cors-origin", "keep-alive-extras"}
+
+type oneByteReader struct{ r io.Reader }
+
+func (o oneByteReader) Read(p []byte) (int, error) {
+	if len(p) == 0 {
+		return 0, nil
+	}
+	return o.r.Read(p[:1])
+}
+
+func Shape(req *http.Request, kind string) *http.Request {
+	switch kind {
+	case "":
+	case "chunked":
+		// Transfer-Encoding: chunked (or HTTP/2 without content-length): the length of the body is unknown in advance
+		if req.Body != nil && req.Body != http.NoBody {
+			req.ContentLength = -1
+			req.TransferEncoding = []string{"chunked"}
+			req.Header.Del("Content-Length")
+			req.Body = io.NopCloser(oneByteReader{req.Body})
+		}
+	case "short-reads":
+		if req.Body != nil && req.Body != http.NoBody {
+			req.Body = io.NopCloser(oneByteReader{req.Body})
+		}
+	case "http10":
+		req.Proto, req.ProtoMajor, req.ProtoMinor = "HTTP/1.0", 1, 0
+	case "http2":
+		req.Proto, req.ProtoMajor, req.ProtoMinor = "HTTP/2.0", 2, 0
+		if req.Body != nil && req.Body != http.NoBody {
+			req.ContentLength = -1
+			req.Header.Del("Content-Length")
+		}
+	case "absolute-uri":
+		// request line in absolute form (RFC 9112 3.2.2): net/http fills URL.Scheme / URL.Host from it and Host from the URI
+		req.URL.Scheme, req.URL.Host = "https", req.Host
+		req.RequestURI = "https://" + req.Host + req.URL.RequestURI()
+	case "proxy-headers":
+		// what a reverse proxy adds; none of it is configured as trusted in the worlds that use this shape
+		req.Header.Set("X-Forwarded-For", "203.0.113.7, 10.0.0.1")
+		req.Header.Set("X-Forwarded-Proto", "http")
+		req.Header.Set("X-Forwarded-Host", "evil.example")
+		req.Header.Set("X-Forwarded-Port", "8080")
+		req.Header.Set("X-Real-Ip", "203.0.113.7")
+		req.Header.Set("Via", "1.1 proxy.example")
+	case "cors-origin":
+		req.Header.Set("Origin", "https://sp-a.example")
+		req.Header.Set("Referer", "https://sp-a.example/login?x=1")
+		req.Header.Set("Sec-Fetch-Site", "cross-site")
+	case "keep-alive-extras":
+		req.Header.Set("Connection", "keep-alive")
+		req.Header.Set("Accept", "text/html,application/xhtml+xml;q=0.9,*/*;q=0.8")
+		req.Header.Set("Accept-Encoding", "gzip, deflate, br")
+		req.Header.Set("Accept-Language", "de-CH,de;q=0.9")
+		req.Header.Set("Cookie", "session=abc; id=evil; SAMLRequest=evil; RelayState=evil")
+		req.Header.Set("Cache-Control", "no-cache")
+		req.Header.Set("Expect", "100-continue")
+	default:
+		panic("world.Shape: " + kind)
+	}
+	return req
+}
